@@ -286,6 +286,63 @@ Proof.
     + destruct (may_become_header s); discriminate.
 Qed.
 
+(** * the addresses are in place before the first application byte is passed on *)
+Lemma wdrain_emits_pass : forall x b ev s, wdrain x b = (ev, s) -> ev <> [] -> exists i, s = Some (Pass i, []).
+Proof.
+  intros x b ev s H Hne.
+  assert (V1 : forall e s', v1_drain b = (e, s') -> e <> [] -> exists i, s' = Some (Pass i, [])).
+  { intros e s' Hb He. unfold v1_drain in Hb. destruct (split1 CRLF b) as [[h rem]|].
+    - destruct (107 <? length h + 2); [inversion Hb; subst; congruence|].
+      destruct (v1_parse h) as [i|]; inversion Hb; subst; [eauto | congruence].
+    - destruct (107 <? length b); inversion Hb; subst; congruence. }
+  assert (V2 : forall e s', v2_drain b = (e, s') -> e <> [] -> exists i, s' = Some (Pass i, [])).
+  { intros e s' Hb He. unfold v2_drain in Hb. destruct (length b <? 16); [inversion Hb; subst; congruence|].
+    destruct (length b <? _); [inversion Hb; subst; congruence|].
+    destruct (v2_parse _) as [i|]; inversion Hb; subst; [eauto | congruence]. }
+  destruct x as [| | |i]; simpl in H.
+  - destruct (v2cond b); [eauto|]. destruct (v1cond b); [eauto|].
+    destruct (may_become_header b); inversion H; subst; congruence.
+  - eauto.
+  - eauto.
+  - inversion H; subst. eauto.
+Qed.
+
+Lemma wfeed_pass : forall i b c, wfeed (Some (Pass i, b)) c = (b ++ c, Some (Pass i, [])).
+Proof. reflexivity. Qed.
+
+Lemma run_cons_proj : forall (E : Type) (feed : wstate -> bytes -> list E * wstate) s c cs,
+  run feed s (c :: cs) = (fst (feed s c) ++ fst (run feed (snd (feed s c)) cs), snd (run feed (snd (feed s c)) cs)).
+Proof. intros E feed s c cs. cbn [run]. destruct (feed s c) as [e s1]. cbn [fst snd]. destruct (run feed s1 cs). reflexivity. Qed.
+
+Lemma wfeed_tagged_pass : forall i b c,
+  wfeed_tagged (Some (Pass i, b)) c = (map (fun x => (Some i, x)) (b ++ c), Some (Pass i, [])).
+Proof. reflexivity. Qed.
+
+Lemma run_tagged_pass : forall cs i b, final_info (snd (run wfeed_tagged (Some (Pass i, b)) cs)) = Some i /\
+  forall t, In t (fst (run wfeed_tagged (Some (Pass i, b)) cs)) -> fst t = Some i.
+Proof.
+  induction cs as [|c cs IH]; intros i b.
+  - simpl. split; [reflexivity | intros t []].
+  - rewrite run_cons_proj, wfeed_tagged_pass. cbn [fst snd]. destruct (IH i []) as [Hf Ht].
+    split; [exact Hf|]. intros t Hin. apply in_app_or in Hin as [Hin|Hin]; [|now apply Ht].
+    apply in_map_iff in Hin as (x & <- & _). reflexivity.
+Qed.
+
+Lemma run_tagged_all : forall cs s t, In t (fst (run wfeed_tagged s cs)) ->
+  fst t = final_info (snd (run wfeed_tagged s cs)) /\ fst t <> None.
+Proof.
+  induction cs as [|c cs IH]; intros s t Hin; [destruct Hin|].
+  rewrite run_cons_proj in *. cbn [fst snd] in *.
+  apply in_app_or in Hin as [Hin|Hin]; [|now apply IH].
+  unfold wfeed_tagged in Hin. cbn [fst] in Hin. apply in_map_iff in Hin as (x & <- & Hx). cbn [fst].
+  assert (Hp : exists i, snd (wfeed s c) = Some (Pass i, [])).
+  { destruct s as [[ph b]|]; [|destruct Hx]. simpl in *. destruct (wdrain ph (b ++ c)) as [ev s1] eqn:Hw. cbn [fst snd] in *.
+    eapply wdrain_emits_pass; eauto. intros ->. destruct Hx. }
+  destruct Hp as [i Hi].
+  assert (Hs : snd (wfeed_tagged s c) = Some (Pass i, [])) by (unfold wfeed_tagged; cbn [snd]; exact Hi).
+  rewrite Hs, Hi. destruct (run_tagged_pass cs i []) as [Hf _]. cbn [final_info]. split; [symmetry; exact Hf | discriminate].
+Qed.
+
 (** * what a well-formed header yields *)
 Lemma v1_header_result : forall line payload i,
   clean CRLF line -> length line + 2 <= 107 -> startswith PROXY line = true -> 6 <= length line ->
